@@ -34,6 +34,9 @@ Definition ll_of (id : Z) : option (list (option (list (option Z)))) :=
                                           (zseq j (Z.to_nat (j mod 3)))))
                  (zseq id (Z.to_nat (id mod 3)))).
 
+(* Decimal128(30,2) `dec` column (a FIXED_LEN_BYTE_ARRAY(13) leaf): the unscaled value; null every 9th row *)
+Definition dec_of (id : Z) : option Z := if id mod 9 =? 4 then None else Some (id * 1000003 - 7).
+
 (* ------------------------------------------------------------------ predicates (ArrowPredicateFn) *)
 (* kind 0: id mod p1 <> p2      kind 1: val < p1 (NULL -> not selected)
    kind 2: val IS NULL           kind 3: p1 <= id < p2 *)
